@@ -663,6 +663,7 @@ func main() {
 		os.Exit(replayStored(repo, verif, prop, *flagReplayF))
 	}
 	hs, dirFiles := findHarnesses(verif, prop)
+	collectNativeStubs(dirFiles)
 	if *flagHarness != "" {
 		re := regexp.MustCompile(*flagHarness)
 		var f []harnessInfo
